@@ -22,6 +22,30 @@ def translate(ctx, d, wasm_bytes, opts=(), out='m.c', translator=None, timeout=6
     return files, (r.stderr or '')
 
 
+def module_has_float(m):
+    def instrs(body):
+        for ins in body:
+            yield ins
+            if ins[0] in ('block', 'loop'):
+                yield from instrs(ins[2])
+            elif ins[0] == 'if':
+                yield from instrs(ins[2])
+                if len(ins) > 3 and ins[3]:
+                    yield from instrs(ins[3])
+    for f in m.funcs:
+        if any(t[0] == 'f' for t in list(f.params) + list(f.results) + list(f.locals)):
+            return True
+        for ins in instrs(f.body):
+            if ins[0][0] == 'f' or '_f32' in ins[0] or '_f64' in ins[0] or (ins[0] in ('block', 'loop', 'if') and ins[1] and ins[1][0] == 'f'):
+                return True
+    for im in m.imports:
+        if im.kind == 'global' and im.desc[0][0] == 'f':
+            return True
+        if im.kind == 'func' and any(t[0] == 'f' for t in list(im.desc[0]) + list(im.desc[1])):
+            return True
+    return any(g.type[0] == 'f' for g in m.globals)
+
+
 def e2_job(ctx, name, module, script, opts=(), harness_kw=None, backends=('z3',), unwind=70, timeout=None,
            group=None, extra_flags=(), sample=None, translator=None, extra_sources=(), ub_checks=False,
            pad=None, wasm_bytes=None, witnesses=('end of script',)):
@@ -37,6 +61,11 @@ def e2_job(ctx, name, module, script, opts=(), harness_kw=None, backends=('z3',)
         hk['prefix'] = True
     h = Harness(module, 'm', script, **hk)
     src = h.gen_main()
+    # SMT-LIB FloatingPoint has a single NaN: back ends that use the FP theory (cvc5) cannot decide
+    # NaN-payload preservation and would return spurious counterexamples; keep them only where the
+    # comparison is NaN-class based (arithmetic NaN results are not bit-determined by the spec).
+    if module_has_float(module) and not h.rg.uses_nan_nondet:
+        backends = [b for b in backends if b != 'cvc5'] or ['sat']
     with open(os.path.join(d, 'h.c'), 'w') as f:
         f.write(src)
     sources = [os.path.join(d, 'h.c')] + [os.path.join(d, f) for f in files] + list(extra_sources)
